@@ -176,6 +176,7 @@ def fd_directional(prob, of, pt, wrt, rng, known_fd=False):
     directions (arrays): list of (wrt, direction, estimate, error bar)"""
     out = []
     sizes = [np.ravel(prob.get_val(o_)).size for o_ in of]
+    v0 = values(prob, of)  # at the design point itself: one-sided quotients expose kinks that central differences average away
     for w in wrt:
         x0 = np.array(pt[w], float)
         flat = x0.ravel()
@@ -193,6 +194,7 @@ def fd_directional(prob, of, pt, wrt, rng, known_fd=False):
         h0 = 2e-3 * sc
         for d in dirs:
             f = []
+            side = []
             for lev in range(3):
                 h = h0 / 2**lev
                 vals = []
@@ -201,9 +203,15 @@ def fd_directional(prob, of, pt, wrt, rng, known_fd=False):
                     zoo.run(prob)
                     vals.append(values(prob, of))
                 f.append((vals[0] - vals[1]) / (2 * h))
+                side.append(np.abs((vals[0] - v0) - (v0 - vals[1])) / h)
             R1 = (4 * f[1] - f[0]) / 3
             R2 = (4 * f[2] - f[1]) / 3
-            out.append((w, d, (16 * R2 - R1) / 15, np.abs(R2 - R1), np.abs(f[2] - f[1])))
+            est, err = (16 * R2 - R1) / 15, np.abs(R2 - R1)
+            # smooth: forward and backward quotients differ by h f'' (falls by 4 from h to h/4); at a kink of the analysed function (e.g.
+            # the wingbox twist angle |arccos| at an untwisted section) the mismatch stays: no derivative exists, the entry does not decide
+            kink = (side[2] > 0.5 * side[0]) & (side[2] > 1e-4 * np.maximum(np.abs(est), 1e-300))
+            err = np.where(kink, np.inf, err)
+            out.append((w, d, est, err, np.abs(f[2] - f[1])))
         prob.set_val(w, x0)
     zoo.run(prob)
     return out, sizes
